@@ -261,6 +261,7 @@ func c04() {
 				"sample_event": vlib.Event{NR: nrsForeign[0], Arch: archWords[5], Args: [6]uint64{pool[0], pool[len(pool)-1]}}})
 		}
 	})
+	c04KernelTier(run, o, ts)
 	var ev int64
 	keys := make([]string, 0, len(cells))
 	for k, v := range cells {
@@ -287,7 +288,84 @@ func c04() {
 		run.Require("arch_jump_distance_256", 1)
 		run.Require("events:x32/listed-number-with-bit", 1)
 		run.Require("events:foreign/one-bit-flip", 1)
+		run.Require("kernel:children", 10)
+		run.Require("kernel:int80_probes", 10)
+		run.Require("kernel:x32_probes", 10)
+		run.Require("kernel:foreign_386_children", 3)
 	}
 	run.Finish(ev, int64(len(shapes)),
 		"policies from the name-only and mixed profiles with default != every group action, plus one-group lists of 244..266 names per architecture (steps the architecture jump through both encodings); events: every AUDIT_ARCH of linux/audit.h, the policy arch with each single bit flipped, 0, ffffffff x listed/boundary numbers; on x86_64 numbers with the x32 bit incl. listed|bit; verdict and executed-instruction oracle; distinct = (arch, jump encoding, program length)")
+}
+
+// c04KernelTier produces foreign-architecture and x32 events on the running
+// kernel: int $0x80 from an amd64 process under an x86_64 policy that lists
+// the coinciding numbers, nr|0x40000000, and a 386 process under a policy
+// compiled for x86_64 (hook H1).
+func c04KernelTier(run *vlib.Run, o *vlib.Oracles, ts []*vlib.Target) {
+	x64 := targetByName(ts, "x86_64")
+	i386 := targetByName(ts, "i386")
+	nameAt := func(t *vlib.Target, nr uint32) string {
+		for n, v := range t.Num {
+			if v == nr {
+				return n
+			}
+		}
+		return ""
+	}
+	st := &kernelStats{outcomes: map[string]int64{}, perABI: map[string]int64{}, shapes: map[string]bool{}}
+	n := run.N(24, 300)
+	vlib.Parallel(n, func(i int) {
+		r := caseRand(run, 3000000+i)
+		var coinciding []string // x86_64 names whose numbers are the i386 numbers of the probes
+		var i386nrs []uint32
+		for _, pn := range probeNames["386"] {
+			nr := i386.Num[pn]
+			if nm := nameAt(x64, nr); nm != "" && nm != "sched_yield" && nm != "futex" && nm != "tkill" {
+				coinciding = append(coinciding, nm)
+				i386nrs = append(i386nrs, nr)
+			}
+		}
+		switch i % 3 {
+		case 0, 1: // amd64 child: int80 and x32 probes
+			var p *seccomp.Policy
+			if i%3 == 0 {
+				p = &seccomp.Policy{DefaultAction: vlib.RetAllow, Syscalls: []seccomp.SyscallGroup{{Names: coinciding, Action: vlib.RetErrno}, {Names: []string{"getppid", "getuid"}, Action: vlib.RetErrno}}}
+			} else {
+				p = genProbePolicy(r, x64, probeNames["amd64"], 1, false, false) // default errno, whole-table allow-list
+			}
+			cc := &vlib.ChildCase{Policy: vlib.SpecOf(p, "x86_64"), Flags: uint32(r.Intn(4)), NNP: true}
+			for _, nr := range i386nrs {
+				if nr == i386.Num["munlockall"] || nr >= 199 { // keep to the classic get*id calls through int80
+					continue
+				}
+				cc.Probes = append(cc.Probes, vlib.Probe{Kind: "int80", NR: uint64(nr), Args: [6]uint64{uint64(r.Uint32()), uint64(x64.Num["getppid"]), uint64(r.Uint32())}})
+				run.Count("kernel:int80_probes", 1)
+			}
+			for _, pn := range probeNames["amd64"] {
+				cc.Probes = append(cc.Probes, vlib.Probe{Kind: "syscall", NR: uint64(x64.Num[pn]), Args: vlib.FillArgs(r, []uint64{0, 1, 64, 110})})
+				cc.Probes = append(cc.Probes, vlib.Probe{Kind: "syscall", NR: uint64(x64.Num[pn] | vlib.X32Bit), Args: vlib.FillArgs(r, []uint64{0, 1, 64, 110})})
+				run.Count("kernel:x32_probes", 1)
+			}
+			cc.Probes = append(cc.Probes, vlib.Probe{Kind: "syscall", NR: 0x7fffffff}, vlib.Probe{Kind: "syscall", NR: 0x40000000 | 600})
+			kc := &kernelCase{goarch: "amd64", t: x64, cc: cc, strace: false, desc: fmt.Sprintf("kernel case %d: amd64 child, int80+x32 probes", i)}
+			judgeEnforce(run, o, kc, st, "kernel:")
+		default: // 386 child under an x86_64 policy: every syscall of the child is foreign
+			p := &seccomp.Policy{DefaultAction: vlib.RetAllow, Syscalls: []seccomp.SyscallGroup{{Names: coinciding, Action: vlib.RetErrno}}}
+			if i%2 == 0 {
+				p.DefaultAction = vlib.RetLog
+				p.Syscalls = append(p.Syscalls, seccomp.SyscallGroup{Action: vlib.RetKillProcess, NamesWithCondtions: []seccomp.NameWithConditions{{Name: coinciding[0], Conditions: seccomp.ArgumentConditions{{Argument: 0, Operation: "GreaterOrEqual", Value: 0}}}}})
+			}
+			cc := &vlib.ChildCase{Policy: vlib.SpecOf(p, "x86_64"), ForceArch: "x86_64", Flags: uint32(r.Intn(4)), NNP: true}
+			for _, pn := range probeNames["386"] {
+				cc.Probes = append(cc.Probes, vlib.Probe{Kind: "syscall", NR: uint64(i386.Num[pn]), Args: vlib.FillArgs(r, []uint64{0, 1, 64, 0xffffffff})})
+			}
+			kc := &kernelCase{goarch: "386", t: x64, cc: cc, strace: i%6 == 2, desc: fmt.Sprintf("kernel case %d: 386 child under a policy compiled for x86_64", i)}
+			if judgeEnforce(run, o, kc, st, "kernel:") {
+				run.Count("kernel:foreign_386_children", 1)
+			}
+		}
+	})
+	for k, v := range st.outcomes {
+		run.Count("kernel:outcome:"+k, v)
+	}
 }
